@@ -433,4 +433,7 @@ def run(tier):
     clause_b(rep, F)
     clause_c(rep, F)
     clause_d(rep, F)
+    # "an implicit key longer than 1024 characters" - and not one of exactly 1024
+    from . import keylimit
+    rep.floor("key-length comparisons", keylimit.check(rep, F), 1)
     return rep
